@@ -39,6 +39,24 @@ Theorem C01_posterior_floor_inactive (K' : nat) (tiny : R) (w l : nat -> R) (b :
 Proof. intros Ht Hw He. eapply posterior_floor_inactive; eauto. Qed.
 Print Assumptions C01_posterior_floor_inactive.
 
+(* the posterior column does not depend on the log-pdfs of the classes the source-activity mask declares inactive - however
+   large they are (the clause that failed before fix 8aab3e3) *)
+Theorem C01_posterior_ignores_inactive_log_pdf (K' : nat) (tiny : R) (w l l' : nat -> R) (b : nat -> bool) (k : nat) :
+  (forall j, (j <= K')%nat -> b j = true -> l j = l' j) -> (k <= K')%nat ->
+  posterior RO K' tiny w l b k = posterior RO K' tiny w l' b k.
+Proof. intros H Hk. exact (posterior_mask_indep l l' b K' tiny w H k Hk). Qed.
+Print Assumptions C01_posterior_ignores_inactive_log_pdf.
+
+(* validity under the property's own precondition: the best active class has mass *)
+Theorem C01_posterior_valid_best_active (K' : nat) (tiny : R) (w l : nat -> R) (b : nat -> bool) :
+  0 < tiny -> (forall k, (k < S K')%nat -> 0 <= w k) ->
+  (exists k, (k < S K')%nat /\ b k = true /\ tiny <= w k /\ forall j, (j < S K')%nat -> b j = true -> l j <= l k) ->
+  (forall k, (k < S K')%nat -> 0 <= posterior RO K' tiny w l b k <= 1) /\
+  rsum (S K') (posterior RO K' tiny w l b) = 1 /\
+  (forall k, b k = false -> posterior RO K' tiny w l b k = 0).
+Proof. exact (posterior_valid_best_active K' tiny w l b). Qed.
+Print Assumptions C01_posterior_valid_best_active.
+
 (* the totalised branch, stated so it is visible: with the floor active the column is sub-normalised *)
 Theorem C01_posterior_floored (K' : nat) (tiny : R) (w l : nat -> R) (b : nat -> bool) :
   0 < tiny -> (forall k, (k < S K')%nat -> 0 <= w k) ->
